@@ -13,6 +13,7 @@ CONSTANTS
     MaxTasks = 2
     MaxDepth = 2
     Panics = TRUE
+    Discards = FALSE
     Emit = TRUE
 VIEW cview
 INVARIANTS InnermostWins NoTrace StackOK
